@@ -269,6 +269,120 @@ func (m *c10Mon) OnState(w *world.World, hist []world.Op) []explore.Finding {
 			}
 		}
 	}
+	out = append(out, m.staleCursor(w, hist, c, keys, cls)...)
+	return out
+}
+
+// staleCursor: a cursor is a view of the tree as it was when the cursor was opened. For every
+// single modification of the tree made after opening the cursor (before or after placing it),
+// a walk over the cursor still visits exactly the sorted entries of that earlier tree.
+func (m *c10Mon) staleCursor(w *world.World, hist []world.Op, c world.Contents, keys []int, cls string) []explore.Finding {
+	cfg := w.Cfg
+	var out []explore.Finding
+	seen := map[string]bool{}
+	var muts []world.Op
+	for k := 0; k < len(cfg.Keys); k++ {
+		for v := 0; v < len(cfg.Vals); v++ {
+			if old, ok := c.M[k]; !ok || old != v {
+				muts = append(muts, world.Op{Kind: world.OpIns, K: k, V: v})
+			}
+		}
+		if _, ok := c.M[k]; ok {
+			muts = append(muts, world.Op{Kind: world.OpDel, K: k, V: c.M[k]})
+		}
+	}
+	n := len(keys)
+	for _, mu := range muts {
+		for _, placeFirst := range []bool{false, true} {
+			for _, dir := range []string{"Min-Forward", "Max-Backward"} {
+				w2, err := explore.Replay(cfg, hist, true)
+				if err != nil {
+					continue
+				}
+				t := w2.Trees[0]
+				var cur *mast.Cursor
+				var got []int
+				bad := ""
+				place := func() error {
+					if dir == "Min-Forward" {
+						return cur.Min(ctx)
+					}
+					return cur.Max(ctx)
+				}
+				r := guardRes(func() (err error) {
+					if cur, err = t.Cursor(ctx); err != nil {
+						return err
+					}
+					if placeFirst {
+						if err = place(); err != nil {
+							return err
+						}
+					}
+					if res := w2.Apply(mu); res.Err != nil || res.Panic != nil {
+						bad = "modification failed"
+						return nil
+					}
+					if !placeFirst {
+						if err = place(); err != nil {
+							return err
+						}
+					}
+					for steps := 0; steps <= n+1; steps++ {
+						k, v, ok := cur.Get()
+						if !ok {
+							return nil
+						}
+						ki := keyIndex(cfg, k)
+						if ki < 0 || cfg.ValIndex(v) != c.M[ki] {
+							ki = -1 - steps
+						}
+						got = append(got, ki)
+						if dir == "Min-Forward" {
+							err = cur.Forward(ctx)
+						} else {
+							err = cur.Backward(ctx)
+						}
+						if err != nil {
+							return err
+						}
+					}
+					return nil
+				})
+				atomic.AddInt64(&m.cursorOps, int64(len(got)+2))
+				atomic.AddInt64(&m.seqs, 1)
+				if bad != "" {
+					continue
+				}
+				want := append([]int{}, keys...)
+				if dir == "Max-Backward" {
+					for i, j := 0, len(want)-1; i < j; i, j = i+1, j-1 {
+						want[i], want[j] = want[j], want[i]
+					}
+				}
+				ok := r.Err == nil && r.Panic == nil && len(got) == len(want)
+				if ok {
+					for i := range want {
+						if got[i] != want[i] {
+							ok = false
+						}
+					}
+				}
+				if ok {
+					continue
+				}
+				when := "modified-before-placing"
+				if placeFirst {
+					when = "modified-after-placing"
+				}
+				sig := fmt.Sprintf("C10|cursor-opened-earlier|%s|%s|%s|%s|%s", cls, opKindName(mu), when, dir, resClass(r))
+				if !seen[sig] {
+					seen[sig] = true
+					out = append(out, explore.Finding{Sig: sig, What: "a cursor opened before a modification of the tree does not walk the sorted entries the tree had when the cursor was opened",
+						Detail: fmt.Sprintf("cursor opened, then %s, walk %s: visited key indexes %v, want %v (%v)", cfg.Describe(mu), dir, got, want, r)})
+				}
+			}
+		}
+	}
 	return out
 }
 
@@ -277,6 +391,7 @@ func C10Configs(thorough bool) []*world.Config {
 	var cs []*world.Config
 	cs = append(cs, world.UintCfg(2, urange(1, 5), 1, B, "none"))
 	cs = append(cs, world.UintCfg(3, ulist(1, 2, 3, 4, 5, 6, 9), 1, B, "none"))
+	cs = append(cs, world.Wide(world.UintCfg(2, urange(1, 5), 1, M, "none")))
 	cs = append(cs, world.UintCfg(4, ulist(1, 2, 3, 4, 5, 8, 16), 1, M, "none"))
 	for _, l := range lkeyQuick {
 		cs = append(cs, world.LKeyCfg(2, l, 1, B, "none"))
@@ -314,4 +429,11 @@ func C10(run *report.Run) {
 	run.Extra["cursor_operations_executed"] = ops
 	run.Extra["cursor_step_sequences"] = seqs
 	run.Rule = ruleSingle + "; in every reachable tree state: cursor placed by Min, Max and Ceil(p) for every universe key and absent probe, then every Forward/Backward step sequence (inner BFS de-duplicated on the dumped cursor path, branches end when stepping off an end), and SeekIter(p) for every probe with early stop at every position; oracle = position in the sorted key list"
+}
+
+func opKindName(o world.Op) string {
+	if o.Kind == world.OpIns {
+		return "insert"
+	}
+	return "delete"
 }
